@@ -20,12 +20,14 @@ class _Assigned(ast.NodeVisitor):
         self.fields: set[str] = set()
         self.calls: list[ast.Call] = []
         self.recv: dict[str, set] = {}   # field -> receiver local names (None: not a plain local)
+        self.recv_expr: dict[str, list] = {}   # field -> receiver expressions of its stores
         self.direct: set[str] = set()    # names rebound or mutated directly (not only through a field of theirs)
 
     def _field(self, attr_node):
         self.fields.add(attr_node.attr)
         r = attr_node.value.id if isinstance(attr_node.value, ast.Name) else None
         self.recv.setdefault(attr_node.attr, set()).add(r)
+        self.recv_expr.setdefault(attr_node.attr, []).append(attr_node.value)
 
     def _target(self, t):
         if isinstance(t, ast.Name):
@@ -238,12 +240,14 @@ class Loops:
                 pass
             except BreakSig:
                 # leaving through break: continue after the loop (no else)
+                fr.write_guards = fr.write_guards[:-1]
                 return
             fr.env[cursor] = SV(TInt, i + 1)
             if dict_iter:
                 fr.env[donename] = SV(dset_ty, z3.Store(D, keys.term[i], z3.BoolVal(True)))
             self.check_inv(it, fr, inv, "preserved", ordinal, st.lineno)
             raise PathAbort("loop body end")
+        fr.write_guards = fr.write_guards[:-1]
         it.exec_block(st.orelse, fr)
 
     # ------------------------------------------------------------------ while
@@ -265,12 +269,14 @@ class Loops:
             except ContinueSig:
                 pass
             except BreakSig:
+                fr.write_guards = fr.write_guards[:-1]
                 return
             self.check_inv(it, fr, inv, "preserved", ordinal, st.lineno)
             if dec0 is not None:
                 dec1 = self.variant(it, fr, inv)
                 it.oblige(f"loop{ordinal}/decreases", z3.And(dec0 >= 0, dec1 < dec0), "supporting", site=("dec", st.lineno))
             raise PathAbort("loop body end")
+        fr.write_guards = fr.write_guards[:-1]
         it.exec_block(st.orelse, fr)
 
     # ------------------------------------------------------------------ helpers
@@ -347,11 +353,33 @@ class Loops:
         fields = set(a.fields)
         call_fields = self.cdb.call_effects(it, a.calls, fr)
         fields |= call_fields
+        # a field stored only through receivers whose static type is a class is havocked for the class that
+        # declares it, not for every class that happens to have a field of that name; the stores executed in
+        # the body are checked against this set (write guard), so the narrowing cannot hide a write
+        narrow: dict = {}
+        for fname in a.fields:
+            exprs = a.recv_expr.get(fname, [])
+            owners = set()
+            ok = bool(exprs) and fname not in call_fields
+            for e in exprs:
+                t = self.cdb.static_type(it, e, fr) if ok else None
+                if isinstance(t, TOpt):
+                    t = t.inner
+                o = it.field_owner(t.cls, fname) if isinstance(t, TObj) else None
+                if o is None:
+                    ok = False
+                    break
+                owners.add(o)
+            narrow[fname] = owners if ok else None
+        fr.write_guards = list(getattr(fr, "write_guards", [])) + [dict(narrow)]
         for fname in fields:
             for owner in it.owners_of_field(fname):
                 it.heap_map(owner, fname)
         for (owner, fname) in list(it.heap.keys()):
             if fname in fields:
+                if narrow.get(fname) is not None and owner not in narrow[fname]:
+                    it.notes.add("loops: a field stored only through receivers of a known class is havocked for the declaring class only (stores are checked against it)")
+                    continue
                 ty = it.field_ty(owner, fname)
                 recv = a.recv.get(fname, {None})
                 objs = [fr.env.get(r) for r in recv] if (fname not in call_fields and None not in recv and not (recv & a.direct)) else []
